@@ -577,6 +577,13 @@ def check_unpaid_growth(chk, prog, fns, edges, label):
                 if nm.endswith("::next") and ("core::ops::range::Range" in nm or "core::ops::range::Range" in tys.split(",")[0]):
                     rng = True
             if not rng:
+                # a counter loop (`while i < n { ..; i += 1 }`) runs as often as a number says, too
+                from . import term as _term
+                try:
+                    rng = _term.classify(prog, fn, head, body)[0] == "counter"
+                except Exception:
+                    rng = False
+            if not rng:
                 continue
             n += 1
             names = [x for _b, t in calls for x in (callee_of(t), t.get("callee") or "")]
